@@ -475,6 +475,45 @@ Qed.
 
 End DFS.
 
+(* the first-occurrence merge without any order assumption *)
+Definition merge_basic (acc : list nat) (ss : list (list nat)) (r : list nat) : Prop :=
+  NoDup r /\ incl acc r /\ (forall s, In s ss -> incl s r) /\
+  (forall x, In x r -> In x acc \/ exists s, In s ss /\ In x s).
+
+Lemma add_new_fold_basic s : forall acc, NoDup acc ->
+  NoDup (fold_left add_new s acc) /\ incl acc (fold_left add_new s acc) /\ incl s (fold_left add_new s acc) /\
+  (forall x, In x (fold_left add_new s acc) -> In x acc \/ In x s).
+Proof.
+  induction s as [|x s IH]; intros acc Hn; cbn [fold_left].
+  - repeat split; try assumption; try apply incl_refl. + intros y []. + now left.
+  - assert (Hn' : NoDup (add_new acc x)).
+    { unfold add_new. destruct (memb x acc) eqn:Em; [assumption|]. apply memb_false in Em. now apply NoDup_app_snoc. }
+    assert (Hi : incl acc (add_new acc x) /\ In x (add_new acc x) /\ forall y, In y (add_new acc x) -> In y acc \/ y = x).
+    { unfold add_new. destruct (memb x acc) eqn:Em.
+      - apply memb_In in Em. repeat split; [apply incl_refl| assumption| now left].
+      - repeat split; [intros y Hy; apply in_or_app; now left| apply in_or_app; right; now left|].
+        intros y Hy. apply in_app_or in Hy as [Hy|[<-|[]]]; auto. }
+    destruct Hi as (I1 & I2 & I3). destruct (IH _ Hn') as (A & B & C & D). repeat split; try assumption.
+    + eapply incl_tran; eassumption.
+    + intros y [<-|Hy]; [now apply B| now apply C].
+    + intros y Hy. destruct (D y Hy) as [X|X]; [|right; now right].
+      destruct (I3 y X) as [Y|Y]; [now left| right; left; now symmetry].
+Qed.
+
+Lemma merge_fold_basic ss : forall acc, NoDup acc ->
+  merge_basic acc ss (fold_left (fun acc s => fold_left add_new s acc) ss acc).
+Proof.
+  unfold merge_basic. induction ss as [|s ss IH]; intros acc Hn; cbn [fold_left].
+  - repeat split; try assumption; try apply incl_refl. + intros s []. + now left.
+  - destruct (add_new_fold_basic s acc Hn) as (A & B & C & D).
+    destruct (IH _ A) as (A2 & B2 & C2 & D2). repeat split; try assumption.
+    + eapply incl_tran; eassumption.
+    + intros s' [<-|Hs']; [eapply incl_tran; eassumption| now apply C2].
+    + intros x Hx. destruct (D2 x Hx) as [X|(s' & Hs' & X)].
+      * destruct (D x X) as [Y|Y]; [now left| right; exists s; split; [now left| assumption]].
+      * right. exists s'. split; [now right| assumption].
+Qed.
+
 (* ------------------------------------------------------------ Roots() *)
 
 Lemma reach_mono (f g : nat -> list nat) a b :
@@ -548,17 +587,38 @@ Proof.
   - apply IH. intro X. apply Hr. now right.
 Qed.
 
+Lemma lookup_or_in_gen l t r : Forall2 entry_ok l t -> In r l -> lookup_or t deps r = lookup t r.
+Proof.
+  intro F. induction F as [|r0 p l l' H F IH]; intro Hr; [destruct Hr|].
+  destruct H as (s0 & Es0 & ->). unfold lookup_or, lookup. cbn [find fst].
+  destruct (Nat.eqb r0 r) eqn:E; [reflexivity|].
+  destruct Hr as [->|Hr]; [rewrite Nat.eqb_refl in E; discriminate|]. apply IH. exact Hr.
+Qed.
+
+Lemma lookup_or_notin_gen l t r : Forall2 entry_ok l t -> ~ In r l -> lookup_or t deps r = deps r.
+Proof.
+  intro F. induction F as [|r0 p l l' H F IH]; intro Hr; [reflexivity|].
+  destruct H as (s0 & Es0 & ->). unfold lookup_or. cbn [find fst].
+  destruct (Nat.eqb r0 r) eqn:E.
+  - apply Nat.eqb_eq in E. subst. exfalso. apply Hr. now left.
+  - apply IH. intro X. apply Hr. now right.
+Qed.
+
 Section Table.
 Variable tbl : list (nat * list nat).
 Hypothesis Htbl : Forall2 entry_ok regs tbl.
 
-Let rd := lookup tbl.
+(* successor function of the final sort: flattened list of a registered root, DependsOn
+   of a root that is not registered *)
+Let rd := lookup_or tbl deps.
 
 Lemma lookup_in r : In r regs -> exists s, sort_deps fuel deps r = Some s /\ rd r = rev s.
-Proof. apply lookup_in_gen. exact Htbl. Qed.
+Proof.
+  intro Hr. unfold rd. rewrite (lookup_or_in_gen _ _ _ Htbl Hr). now apply (lookup_in_gen _ _ _ Htbl).
+Qed.
 
-Lemma lookup_notin r : ~ In r regs -> rd r = [].
-Proof. apply lookup_notin_gen. exact Htbl. Qed.
+Lemma lookup_notin r : ~ In r regs -> rd r = deps r.
+Proof. apply lookup_or_notin_gen. exact Htbl. Qed.
 
 Lemma rd_reach r : In r regs -> forall y, In y (rd r) <-> reach deps r y.
 Proof.
@@ -566,25 +626,22 @@ Proof.
   apply (sort_deps_spec deps _ _ _ Es).
 Qed.
 
-Lemma rd_edge x d : In d (rd x) -> In x regs /\ reach deps x d.
+Lemma rd_edge x d : In d (rd x) -> reach deps x d.
 Proof.
   intro H. destruct (in_dec Nat.eq_dec x regs) as [Hx|Hx].
-  - split; [assumption|]. now apply rd_reach.
-  - rewrite (lookup_notin x Hx) in H. destruct H.
+  - now apply rd_reach.
+  - rewrite (lookup_notin x Hx) in H. now apply reach_edge.
 Qed.
 
 Lemma rd_lt x d : In d (rd x) -> d < n.
-Proof. intro H. apply rd_edge in H as [Hx H]. eapply reach_lt; [apply Hregs; exact Hx| exact H]. Qed.
+Proof.
+  intro H. destruct (in_dec Nat.eq_dec x regs) as [Hx|Hx].
+  - apply rd_edge in H. eapply reach_lt; [apply Hregs; exact Hx| exact H].
+  - rewrite (lookup_notin x Hx) in H. eapply Hdeps; eauto.
+Qed.
 
 Lemma reach_rd_deps a b : reach rd a b -> reach deps a b.
-Proof. apply reach_mono. intros x d Hd. now apply rd_edge in Hd as [_ Hd]. Qed.
-
-Lemma reach_rd_cases a b : reach rd a b -> a = b \/ (In a regs /\ reach deps a b).
-Proof.
-  intro H. destruct H as [x|x d y Hd H]; [now left|]. right.
-  split; [now apply rd_edge in Hd as [Hx _]|].
-  apply reach_rd_deps. eapply reach_step; eauto.
-Qed.
+Proof. apply reach_mono. intros x d Hd. now apply rd_edge in Hd. Qed.
 
 Lemma tbl_map : tbl = map (fun r => (r, rd r)) regs.
 Proof.
@@ -635,11 +692,31 @@ Proof.
   unfold self_dep. rewrite existsb_exists. split; intros (r & Hr & H); exists r; (split; [assumption|]); now apply memb_In.
 Qed.
 
+(* the part of the result that needs no acyclicity: no duplicates, every registered
+   root, only roots reachable from registered ones *)
+Lemma roots_result_basic ss :
+  Forall2 (fun r s => sort_deps fuel rd r = Some s) regs ss ->
+  NoDup (merge_first ss) /\ incl regs (merge_first ss) /\
+  (forall x, In x (merge_first ss) -> exists r, In r regs /\ reach deps r x).
+Proof.
+  intros F.
+  pose proof (merge_fold_basic ss []  (NoDup_nil _)) as M.
+  unfold merge_basic in M. fold (merge_first ss) in M. destruct M as (A & _ & D & G).
+  split; [exact A|]. split.
+  - intros r Hr. destruct (Forall2_in_l _ _ _ _ F Hr) as (s & Hs & Es).
+    apply (D s Hs). apply (sort_deps_spec rd _ _ _ Es). apply reach_refl.
+  - intros x Hx. destruct (G x Hx) as [[]|(s & Hs & Hxs)].
+    destruct (Forall2_in_r _ _ _ _ F Hs) as (r & Hr & Es).
+    exists r. split; [assumption|]. apply reach_rd_deps. now apply (sort_deps_spec rd _ _ _ Es).
+Qed.
+
+(* every dependency cycle lies among registered roots (where the cycle check sees it) *)
+Hypothesis cyc_reg : forall a b, reach deps a b -> reach deps b a -> a <> b -> In a regs /\ In b regs.
+
 Lemma rd_anti a b : reach rd a b -> reach rd b a -> a = b.
 Proof.
   intros H1 H2. destruct (Nat.eq_dec a b) as [E|Hne]; [assumption|exfalso].
-  destruct (reach_rd_cases _ _ H1) as [E|[Ha R1]]; [contradiction|].
-  destruct (reach_rd_cases _ _ H2) as [E|[Hb R2]]; [congruence|].
+  apply reach_rd_deps in H1, H2. destruct (cyc_reg a b H1 H2 Hne) as [Ha Hb].
   assert (mutual tbl = true) as X by (apply mutual_spec; exists a, b; auto). congruence.
 Qed.
 
@@ -688,17 +765,29 @@ Proof.
       intros [H|H]; [apply self_dep_spec in H| apply (mutual_spec tbl F) in H]; congruence.
 Qed.
 
-Theorem roots_ok_spec l : roots n deps regs = Ok l ->
-  NoDup l /\ incl regs l /\
-  (forall x, In x l -> exists r, In r regs /\ reach deps r x) /\
-  (forall u v, In u regs -> reach deps u v -> u <> v ->
-     forall l1 l2, l = l1 ++ u :: l2 -> In v l1).
+Theorem roots_ok_basic l : roots n deps regs = Ok l ->
+  NoDup l /\ incl regs l /\ (forall x, In x l -> exists r, In r regs /\ reach deps r x).
 Proof.
   unfold roots. fold fuel. destruct flat_table_ok as (tbl & E & F). rewrite E.
   destruct (self_dep deps regs) eqn:Es; [discriminate|].
   destruct (mutual tbl) eqn:Em; [discriminate|].
   destruct (pass2_ok tbl F) as (ss & E2 & F2). rewrite E2. intros [= <-].
-  apply (roots_result tbl F Em ss F2).
+  apply (roots_result_basic tbl F ss F2).
+Qed.
+
+Theorem roots_ok_spec l :
+  (forall a b, reach deps a b -> reach deps b a -> a <> b -> In a regs /\ In b regs) ->
+  roots n deps regs = Ok l ->
+  NoDup l /\ incl regs l /\
+  (forall x, In x l -> exists r, In r regs /\ reach deps r x) /\
+  (forall u v, In u regs -> reach deps u v -> u <> v ->
+     forall l1 l2, l = l1 ++ u :: l2 -> In v l1).
+Proof.
+  intro H. unfold roots. fold fuel. destruct flat_table_ok as (tbl & E & F). rewrite E.
+  destruct (self_dep deps regs) eqn:Es; [discriminate|].
+  destruct (mutual tbl) eqn:Em; [discriminate|].
+  destruct (pass2_ok tbl F) as (ss & E2 & F2). rewrite E2. intros [= <-].
+  apply (roots_result tbl F Em H ss F2).
 Qed.
 
 Theorem roots_complete_spec :
@@ -706,7 +795,7 @@ Theorem roots_complete_spec :
     forall r, In r regs -> forall y, In y (lookup tbl r) <-> reach deps r y.
 Proof.
   destruct flat_table_ok as (tbl & E & F). exists tbl. split; [exact E|].
-  intros r Hr y. now apply rd_reach.
+  intros r Hr y. rewrite <- (lookup_or_in_gen _ _ _ F Hr). now apply rd_reach.
 Qed.
 
 End Roots.
